@@ -84,7 +84,13 @@ func csRule(name string, d csDef) string {
 		b.WriteString("symbols: " + strings.Join(syms, " ") + "; ")
 	}
 	if !d.Rng.Auto {
-		b.WriteString(fmt.Sprintf("range: %d %d; ", d.Rng.Lo, d.Rng.Hi))
+		bound := func(v int) string {
+			if v <= -1000 || v >= 1000 {
+				return "infinite"
+			}
+			return fmt.Sprint(v)
+		}
+		b.WriteString(fmt.Sprintf("range: %s %s; ", bound(d.Rng.Lo), bound(d.Rng.Hi)))
 	} else if d.RngSet {
 		b.WriteString("range: auto; ")
 	}
